@@ -47,6 +47,7 @@ const preamble = `(declare-sort Str 0)
 (declare-fun fmt_03d ((_ BitVec 64)) Str)
 (declare-fun boxval_Str (Int) Str)
 (declare-fun boxval_Bytes (Int) Bytes)
+(declare-fun boxval_Slice (Int) Slice)
 (assert (= (slen empty_str) #x0000000000000000))
 `
 
